@@ -128,7 +128,8 @@ class ComparamInstance:
             )
             return None
 
-        result = value_list[idx]
+        # trailing values may be omitted
+        result = value_list[idx] if idx < len(value_list) else None
         if result is None and isinstance(subparam, (Comparam, ComplexComparam)):
             result = subparam.physical_default_value
         if not isinstance(result, str):
